@@ -452,6 +452,38 @@ class World:
             return False
         return self.check(("legacy_reload",))
 
+    def op_empty_by_hand(self):
+        """The application empties a position itself (`project.modules[i] = None`, the only way to take a module out).  The next
+        attachment takes the lowest empty position as always; the removed object, offered again, is attached like any module."""
+        # (only modules nothing is wired to: taking a wired module out by hand leaves links that name an empty position - the
+        #  application's own inconsistency, nothing to judge)
+        def unwired(i, m):
+            if any(x != -1 for x in list(m.in_links) + list(m.out_links)):
+                return False
+            return not any(o is not None and (i in o.in_links or i in o.out_links) for o in self.p.modules)
+        idx = [i for i, m in enumerate(self.p.modules) if m is not None and i > 0 and unwired(i, m)]
+        if not idx:
+            return True
+        i = self.rng.choice(idx)
+        old = self.p.modules[i]
+        self.p.modules[i] = None
+        name = self.slots[i]
+        self.slots[i] = None
+        self.res.count("positions_emptied_by_hand")
+        # (the removed object still says it belongs here: the application has to clear that itself before using it elsewhere)
+        how = self.rng.choice(("leave", "reattach", "reattach-after-another"))
+        if how == "leave":
+            old.parent, old.index = None, None
+            return self.check(("empty_by_hand", i, how))
+        if how == "reattach-after-another":
+            name2 = self.fresh_name()
+            self.p.new_module(self.api.m.Filter, name=name2)
+            self.model_attach(name2)
+        old.parent, old.index = None, None
+        self.p.attach_module(old)
+        self.model_attach(name)
+        return self.check(("empty_by_hand", i, how))
+
     def op_wiring(self):
         """Modules get wired between attachments (single pairs, fan-out, fan-in, operators, disconnects): wiring never moves
         anything, and the next attachment still takes the lowest empty position."""
@@ -518,8 +550,10 @@ class World:
             return self.op_note_mod()
         if r < 0.93:
             return self.op_legacy_reload()
-        if r < 0.96:
+        if r < 0.955:
             return self.op_wiring()
+        if r < 0.97:
+            return self.op_empty_by_hand()
         return self.op_save_load()
 
 
